@@ -298,8 +298,9 @@ pub fn rule_in_scope(r: &refmodel::Rule) -> bool {
     }
 }
 
-/// Possible (materials, products) summaries of a level that passes, as sets of JSON values.
-fn possible_summary(ev: &LevelEval) -> (Vec<Value>, Vec<Value>) {
+/// Possible summaries of a level that passes: materials of counting first-step evidence, and
+/// (products, command, byproducts) of counting last-step evidence, as JSON values.
+fn possible_summary(ev: &LevelEval) -> (Vec<Value>, Vec<(Value, Value, Value)>) {
     let mut mats = vec![];
     let mut prods = vec![];
     if let Some(first) = ev.steps.first() {
@@ -314,7 +315,7 @@ fn possible_summary(ev: &LevelEval) -> (Vec<Value>, Vec<Value>) {
     if let Some(last) = ev.steps.last() {
         for c in &last.cands {
             match (&c.kind, &c.sub_eval) {
-                (Kind::Link, _) => prods.push(c.signed["products"].clone()),
+                (Kind::Link, _) => prods.push((c.signed["products"].clone(), c.signed["command"].clone(), c.signed["byproducts"].clone())),
                 (Kind::Layout, Some(se)) => prods.extend(possible_summary(se).1),
                 _ => {}
             }
@@ -383,8 +384,16 @@ pub fn judge_supply(t: &SupplyTrace, o: &SupplyOutcome) -> SupplyJudgement {
                         f.push(finding("C15", "summary-materials", format!("summary materials {} are not those of any counting first-step evidence", s["materials"])));
                         break;
                     }
-                    if !pp.is_empty() && !pp.contains(&s["products"]) {
+                    if !pp.is_empty() && !pp.iter().any(|x| x.0 == s["products"]) {
                         f.push(finding("C15", "summary-products", format!("summary products {} are not those of any counting last-step evidence", s["products"])));
+                        break;
+                    }
+                    if !pp.is_empty() && !pp.iter().any(|x| x.0 == s["products"] && x.1 == s["command"] && x.2 == s["byproducts"]) {
+                        f.push(finding(
+                            "C15",
+                            "summary-command-byproducts",
+                            format!("summary command {} / byproducts {} are not those of the counting last-step evidence with these products", s["command"], s["byproducts"]),
+                        ));
                         break;
                     }
                     if s["name"] != Value::String(String::new()) {
